@@ -1445,7 +1445,14 @@ class StateEngine(object):
             if error_type == "States.TaskFailed":
                 boiler_plate = ""
             elif state_machine_type == "STANDARD":
-                id = len(self.execution_history[execution_arn])
+                """
+                Use get() as the history for this execution may not exist if the
+                StateEngine has been restarted (with the in-memory history
+                store) and the first thing that happens to the execution
+                afterwards is an error, before any history update has had
+                the chance to re-create it.
+                """
+                id = len(self.execution_history.get(execution_arn, []))
                 boiler_plate = (
                     "An error occurred while executing the state "
                     "\"{}\" (entered at the event id #{}). "
